@@ -8,21 +8,29 @@ RULE = ('random count digraphs assembled from strongly connected blocks (directe
         'counts 1..4 so that thresholds 0..3 cut different edges, block multipliers for weight) joined by '
         'one-way links, plus isolated states, sink states (all-zero row), source states, randomly permuted '
         'state ids; scenario families: random / equal-size-different-weight / light-large-vs-heavy-small / '
-        'exact weight ties / weight carried by below-threshold or outgoing counts / uniform random sparse / small dense 2..4 states; '
-        'exhaustive 1x1 and 2x2 matrices over {0,1,2}; thresholds -1..5 (mostly 0..3); every case is run with '
-        'renumber_states True and False on ndarray and csr/csc/coo/lil/dok/dia/bsr matrices; MSM(trim=True) '
-        'fits of random assignments; random TrimMapping csv round trips. Non-trivial = at least two SCCs; '
-        'distinct by canonical input')
+        'exact weight ties / weight carried by below-threshold or outgoing counts / uniform random sparse / '
+        'small dense 2..4 states; exhaustive 1x1 and 2x2 matrices over {0,1,2}; thresholds -1..5 (mostly 0..3). '
+        'Audit families: count dtypes int8..uint64/float32/float64, thresholds passed as int/float/np.int32, '
+        'non-integer thresholds k+0.5 and counts in multiples of 1/2 (cases store exact integer numerators and a '
+        'scale), positional vs keyword arguments; degenerate graphs (zero matrix, diagonal only, everything below '
+        'the threshold, pendant chains, stars, self-counts only); weights differing by 1 at 2^40..2^60 and uint8 '
+        'counts whose row sums exceed 255; 256..320 states with >255 components / kept ids >255 / >256 kept states '
+        '(model skipped, oracle only). Every case: renumber_states True and False on ndarray and '
+        'csr/csc/coo/lil/dok/dia/bsr matrices; a share also on np.matrix and the seven sparse *_array classes, and '
+        'with sparse inputs built from coo data holding explicit zeros and duplicate entries; the SAME object is '
+        'trimmed twice (after scribbling on the first mapping), results are fed back in, earlier results are '
+        're-read after later calls. MSM(trim=True) fits of random assignments (padded / RaggedArray, int8..int64 '
+        'and unsigned dtypes, explicit / inferred state count, counts >127, >255 states, fitted twice); random '
+        'TrimMapping dict and csv round trips. Non-trivial = at least two SCCs; distinct by canonical input')
 ASSUMPTIONS = [
     'scipy.sparse.csgraph.connected_components(connection="strong") returns the partition into strongly '
     'connected components numbered 0..k-1 (model parameter; checked on every case against the Lean Warshall '
     'closure via validLabeling and against an independent Tarjan in Python)',
-    'count sums stay below 2**63 (the model uses unbounded naturals)',
+    'count sums stay below 2**63 (the model uses unbounded naturals); more than 40 states: Lean model not run (tag model-skipped-large-n), predicate by the Python oracle only',
+    'bool matrices, negative counts, more than 65535 states (dense n x n copy made by the code itself) are outside the generators',
     'scipy sparse containers convert to/from dense without changing values (toarray / constructor from ndarray)',
 ]
 TRUSTED_EXTRA = ['independent Python oracle: iterative Tarjan SCC + breadth-first reachability']
-
-CONTAINERS = ['ndarray', 'csr', 'csc', 'coo', 'lil', 'dok', 'dia', 'bsr']
 
 
 # --------------------------------------------------------------------------- oracle
@@ -107,24 +115,89 @@ def oracle(C, thr):
 
 
 # --------------------------------------------------------------------------- real code
+# A case stores integer NUMERATORS: the real count is counts[i][j] / scale and the real threshold is
+# thr / scale (scale 1 or 2, so every value is exact in binary floating point).  Edges, components and
+# the argmax of the weights are invariant under the common factor, so oracle and Lean model work on
+# the numerators; the matrices returned by the real code are multiplied by scale before comparing.
 
-def make_container(C, kind, dtype):
+BASE_CONTAINERS = ['ndarray', 'csr', 'csc', 'coo', 'lil', 'dok', 'dia', 'bsr']
+EXTRA_CONTAINERS = ['matrix', 'csr_array', 'csc_array', 'coo_array', 'lil_array', 'dok_array', 'dia_array', 'bsr_array']
+CONTAINERS = BASE_CONTAINERS
+
+
+def containers_of(case):
+    return BASE_CONTAINERS + (EXTRA_CONTAINERS if case.get('extra_containers') else [])
+
+
+def actual_array(case):
+    C, scale, dtype = case['counts'], case.get('scale', 1), case.get('dtype', 'int64')
+    n = len(C)
+    if scale == 1:
+        return np.array(C, dtype=dtype).reshape(n, n)
+    if np.dtype(dtype).kind == 'f':
+        return (np.array(C, dtype=np.float64).reshape(n, n) / scale).astype(dtype)
+    assert all(x % scale == 0 for r in C for x in r), 'integer dtype needs numerators divisible by scale'
+    return np.array([[x // scale for x in r] for r in C], dtype=dtype).reshape(n, n)
+
+
+def actual_thr(case):
+    thr, scale, kind = case['thr'], case.get('scale', 1), case.get('thr_kind', 'int')
+    if scale != 1 and thr % scale:
+        return thr / scale
+    v = thr // scale
+    if kind == 'float':
+        return float(v)
+    if kind == 'npint':
+        return np.int32(v)
+    return v
+
+
+def make_container(case, kind):
     import scipy.sparse as sp
-    A = np.array(C, dtype=dtype).reshape(len(C), len(C))
+    A = actual_array(case)
     if kind == 'ndarray':
         return A
-    return getattr(sp, kind + '_matrix')(A)
+    if kind == 'matrix':
+        return np.matrix(A)
+    fmt, cls = (kind[:-6], '_array') if kind.endswith('_array') else (kind, '_matrix')
+    if case.get('explicit_zeros'):
+        # coo with stored zeros and split (duplicate) entries, then converted; what survives the
+        # conversion depends on the format, the dense value never changes
+        n = A.shape[0]
+        rows, cols, data = [], [], []
+        for i in range(n):
+            for j in range(n):
+                v = A[i, j]
+                if v == 0:
+                    if (i + 2 * j) % 3 == 0:
+                        rows.append(i)
+                        cols.append(j)
+                        data.append(0)
+                elif v >= 2 and (i + j) % 2 == 0:
+                    rows += [i, i]
+                    cols += [j, j]
+                    data += [v - 1, 1]
+                else:
+                    rows.append(i)
+                    cols.append(j)
+                    data.append(v)
+        coo = getattr(sp, 'coo' + cls)((np.array(data, dtype=A.dtype), (np.array(rows, dtype=int), np.array(cols, dtype=int))),
+                                       shape=A.shape)
+        return coo if fmt == 'coo' else coo.asformat(fmt)
+    return getattr(sp, fmt + cls)(A)
 
 
 def snapshot(M):
     import scipy.sparse as sp
     if sp.issparse(M):
         parts = [np.asarray(M.toarray()).tobytes(), str(M.shape), str(M.dtype), type(M).__name__]
-        for attr in ('data', 'indices', 'indptr', 'row', 'col', 'offsets'):
-            if hasattr(M, attr) and not isinstance(M, (sp.dok_matrix, sp.lil_matrix)):
-                parts.append(np.asarray(getattr(M, attr)).tobytes())
+        if M.format not in ('dok', 'lil'):
+            for attr in ('data', 'indices', 'indptr', 'row', 'col', 'coords', 'offsets'):
+                if hasattr(M, attr):
+                    v = getattr(M, attr)
+                    parts.append(b''.join(np.asarray(x).tobytes() for x in v) if isinstance(v, tuple) else np.asarray(v).tobytes())
         return tuple(parts)
-    return (M.tobytes(), str(M.shape), str(M.dtype))
+    return (np.asarray(M).tobytes(), str(M.shape), str(M.dtype), type(M).__name__)
 
 
 def canon_mapping(m):
@@ -132,13 +205,22 @@ def canon_mapping(m):
             'to_mapped': [[int(k), int(v)] for k, v in m.to_mapped.items()]}
 
 
-def call_trim(M, thr, renumber, use_default_thr=False):
-    """returns canonical output of the real trim_disconnected"""
+def _num(x, scale):
+    v = x * scale
+    if isinstance(v, float) and v.is_integer():
+        return int(v)
+    return v
+
+
+def call_trim(M, thr, renumber, scale=1, mode='kw'):
+    """canonical output of the real trim_disconnected (matrix entries as numerators)"""
     import scipy.sparse as sp
     from enspara.msm.transition_matrices import trim_disconnected
     try:
-        if use_default_thr:
+        if mode == 'default':
             mapping, T = trim_disconnected(M, renumber_states=renumber)
+        elif mode == 'pos':
+            mapping, T = trim_disconnected(M, thr, renumber)
         else:
             mapping, T = trim_disconnected(M, threshold=thr, renumber_states=renumber)
     except Exception as e:  # noqa
@@ -148,49 +230,55 @@ def call_trim(M, thr, renumber, use_default_thr=False):
     out['same_type'] = type(T) is type(M)
     dense = T.toarray() if sp.issparse(T) else np.asarray(T)
     out['shape'] = [int(x) for x in dense.shape]
-    out['matrix'] = [[int(x) for x in row] for row in dense.tolist()]
+    out['matrix'] = [[_num(x, scale) for x in row] for row in dense.tolist()]
     out['_mapping_obj'] = mapping
+    out['_T'] = T
     return out
 
 
 def predicate(C, thr, renumber, out, orc):
-    """the property's words evaluated on one real output; returns list of (key, message)"""
+    """the property's words evaluated on one real output; returns list of messages"""
     bad = []
     n = len(C)
+    big = n > 40
+
+    def show(x):
+        return ('<%d items>' % len(x)) if big and hasattr(x, '__len__') else str(x)
     to_orig = out['to_original']
     to_map = out['to_mapped']
     kept = sorted(o for _, o in to_orig)
     # kept set is an SCC of maximal weight
     if kept not in orc['comps']:
-        bad.append('kept states %s are not a strongly connected component (SCCs %s)' % (kept, orc['comps']))
+        bad.append('kept states %s are not a strongly connected component (SCCs %s)' % (show(kept), show(orc['comps'])))
     elif kept not in orc['heaviest']:
-        bad.append('kept SCC %s is not of maximal weight (weights %s for %s)' % (kept, orc['weights'], orc['comps']))
+        bad.append('kept SCC %s is not of maximal weight (weights %s for %s; heaviest %s)'
+                   % (show(kept), show(orc['weights']), show(orc['comps']), show(orc['heaviest'])))
     k = len(kept)
     M = out['matrix']
     if len(set(kept)) != k:
-        bad.append('mapping is not one-to-one: %s' % to_orig)
+        bad.append('mapping is not one-to-one: %s' % show(to_orig))
         return bad
     if renumber:
         # order preserving bijection new -> original onto kept
         if sorted(t for t, _ in to_orig) != list(range(k)):
-            bad.append('new ids are not 0..k-1: %s' % to_orig)
+            bad.append('new ids are not 0..k-1: %s' % show(to_orig))
             return bad
         d = dict((t, o) for t, o in to_orig)
         if [d[t] for t in range(k)] != kept:
-            bad.append('mapping new->original is not order preserving: %s' % to_orig)
+            bad.append('mapping new->original is not order preserving: %s' % show(to_orig))
         if out['shape'] != [k, k]:
             bad.append('renumbered matrix shape %s != (%d,%d)' % (out['shape'], k, k))
             return bad
         for a in range(k):
             for b in range(k):
                 if M[a][b] != C[d[a]][d[b]]:
-                    bad.append('renumbered entry [%d,%d]=%d != original [%d,%d]=%d'
+                    bad.append('renumbered entry [%d,%d]=%s != original [%d,%d]=%s (numerators)'
                                % (a, b, M[a][b], d[a], d[b], C[d[a]][d[b]]))
                     return bad
         sub_nodes = list(range(k))
     else:
         if any(t != o for t, o in to_orig):
-            bad.append('in-place mapping is not the identity on kept states: %s' % to_orig)
+            bad.append('in-place mapping is not the identity on kept states: %s' % show(to_orig))
         if out['shape'] != [n, n]:
             bad.append('in-place matrix shape %s != (%d,%d)' % (out['shape'], n, n))
             return bad
@@ -199,34 +287,59 @@ def predicate(C, thr, renumber, out, orc):
             for j in range(n):
                 exp = C[i][j] if (i in ks and j in ks) else 0
                 if M[i][j] != exp:
-                    bad.append('in-place entry [%d,%d]=%d, expected %d (%s)' %
-                               (i, j, M[i][j], exp, 'kept pair' if exp or (i in ks and j in ks) else 'removed state'))
+                    bad.append('in-place entry [%d,%d]=%s, expected %s (%s)' %
+                               (i, j, M[i][j], exp, 'kept pair' if (i in ks and j in ks) else 'removed state'))
                     return bad
         sub_nodes = kept
     # to_mapped is the inverse of to_original
     if sorted([o, t] for t, o in to_orig) != sorted(to_map):
-        bad.append('to_mapped %s is not the inverse of to_original %s' % (to_map, to_orig))
+        bad.append('to_mapped %s is not the inverse of to_original %s' % (show(to_map), show(to_orig)))
     # trimmed matrix strongly connected w.r.t. its own thresholded edges
     adjT = edges_of(M, thr)
     compsT = tarjan(adjT)
     if k >= 1:
         if sorted(sub_nodes) not in compsT:
-            bad.append('trimmed matrix is not strongly connected on the kept states (its SCCs: %s)' % compsT)
+            bad.append('trimmed matrix is not strongly connected on the kept states (its SCCs: %s)' % show(compsT))
     return bad
 
 
 # --------------------------------------------------------------------------- one case
 
+CASE_KEYS = ('counts', 'thr', 'scale', 'dtype', 'thr_kind', 'call', 'explicit_zeros', 'extra_containers', 'family',
+             'model_skipped')
+
+
 def check_case(ctx, case, model_scc, model_trim):
     C, thr, dtype = case['counts'], case['thr'], case.get('dtype', 'int64')
+    scale, mode = case.get('scale', 1), case.get('call', 'kw')
     n = len(C)
     orc = oracle(C, thr)
     ncomp = len(orc['comps'])
     tie = len(orc['heaviest']) > 1
-    tags = ['n=%d' % n if n <= 3 else ('n=4..8' if n <= 8 else 'n>8'), 'thr=%d' % thr,
+    athr = actual_thr(case)
+    tags = ['n=%d' % n if n <= 3 else ('n=4..8' if n <= 8 else ('n=9..40' if n <= 40 else 'n>255' if n > 255 else 'n=41..255')),
+            'thr=%g' % (thr / scale), 'dtype=' + dtype,
             'family=' + case.get('family', '?'),
             'tie' if tie else 'unique-heaviest',
-            'sccs=%d' % ncomp if ncomp <= 3 else 'sccs>3']
+            'sccs=%d' % ncomp if ncomp <= 3 else ('sccs>255' if ncomp > 255 else 'sccs>3')]
+    if isinstance(athr, float):
+        tags.append('threshold-non-integer' if not float(athr).is_integer() else 'threshold-passed-as-float')
+    if isinstance(athr, np.integer):
+        tags.append('threshold-passed-as-np.int32')
+    if scale != 1 and np.dtype(dtype).kind == 'f' and any(x % scale for r in C for x in r):
+        tags.append('non-integer-counts')
+    if mode == 'pos':
+        tags.append('positional-arguments')
+    if case.get('explicit_zeros'):
+        tags.append('sparse-explicit-zeros+duplicates')
+    if case.get('extra_containers'):
+        tags.append('np.matrix+sparse-arrays')
+    if ncomp == n and n > 1:
+        tags.append('all-states-isolated')
+    if all(x == 0 for r in C for x in r):
+        tags.append('zero-matrix')
+    elif n > 1 and not any(orc['adj'][i][:] and orc['adj'][i] != [i] for i in range(n)):
+        tags.append('everything-below-threshold-or-diagonal')
     # heaviest is not the largest / not the first?
     if ncomp > 1 and not tie:
         h = orc['heaviest'][0]
@@ -234,22 +347,34 @@ def check_case(ctx, case, model_scc, model_trim):
             tags.append('heaviest-is-not-largest')
         if min(min(c) for c in orc['comps']) not in h:
             tags.append('heaviest-does-not-contain-state-0')
-        weak = tarjan([sorted(set(a) | set(j for j in range(n) if i in orc['adj'][j]))
-                       for i, a in enumerate(orc['adj'])])
-        if len(weak) < ncomp:
-            tags.append('one-way-links(weak!=strong)')
+        if n <= 40:
+            weak = tarjan([sorted(set(a) | set(j for j in range(n) if i in orc['adj'][j]))
+                           for i, a in enumerate(orc['adj'])])
+            if len(weak) < ncomp:
+                tags.append('one-way-links(weak!=strong)')
+        if max(h) > 255:
+            tags.append('kept-state-id>255')
+        if len(h) > 256:
+            tags.append('kept-count>256')
+        if case.get('_heavy_label', 0) > 255:
+            tags.append('heaviest-scipy-label>255')
     if case.get('_tie_relabelled'):
         tags.append('tie-broken-differently-from-first-label')
-    ctx.case({'counts': C, 'thr': thr, 'dtype': dtype}, nontrivial=ncomp >= 2, tags=tags)
+    if model_scc is None:
+        tags.append('model-skipped-' + str(case.get('model_skipped', 'large-n')))
+    pub = {k: case[k] for k in CASE_KEYS if k in case}
+    ctx.case(pub if n <= 40 else dict(pub, counts='<%dx%d, sha %s>' % (n, n, hash(str(C)) & 0xffffffff)),
+             nontrivial=ncomp >= 2, tags=tags)
 
     outs = {}
-    for kind in CONTAINERS:
+    kinds = containers_of(case)
+    for kind in kinds:
         for renumber in (True, False):
-            M = make_container(C, kind, dtype)
+            M = make_container(case, kind)
             before = snapshot(M)
-            out = call_trim(M, thr, renumber)
+            out = call_trim(M, athr, renumber, scale, mode)
             after = snapshot(M)
-            rep = dict(case, container=kind, renumber=renumber)
+            rep = dict(pub, container=kind, renumber=renumber)
             if before != after:
                 ctx.violation('trim_disconnected modified the caller\'s matrix (%s, renumber=%s)' % (kind, renumber), rep)
                 return
@@ -262,96 +387,146 @@ def check_case(ctx, case, model_scc, model_trim):
                 return
             bad = predicate(C, thr, renumber, out, orc)
             if bad:
-                ctx.violation('%s (%s, renumber=%s)' % (bad[0], kind, renumber), dict(rep, all_failures=bad[:5]))
+                ctx.violation('%s (%s, %s, renumber=%s)' % (bad[0], kind, dtype, renumber), dict(rep, all_failures=bad[:5]))
                 return
             outs[(kind, renumber)] = out
     # dense and sparse agree
     for renumber in (True, False):
         ref = outs[('ndarray', renumber)]
-        for kind in CONTAINERS[1:]:
+        for kind in kinds[1:]:
             o = outs[(kind, renumber)]
             for f in ('to_original', 'to_mapped', 'shape', 'matrix'):
                 if o[f] != ref[f]:
                     ctx.violation('dense and %s results differ in %s (renumber=%s)' % (kind, f, renumber),
-                                  dict(case, container=kind, renumber=renumber))
+                                  dict(pub, container=kind, renumber=renumber))
                     return
     # renumbered and in-place describe the same model
     r1, r2 = outs[('ndarray', True)], outs[('ndarray', False)]
     kept1 = [o for _, o in sorted(r1['to_original'])]
     kept2 = sorted(o for _, o in r2['to_original'])
     if kept1 != kept2:
-        ctx.violation('renumbered and in-place variants keep different states: %s vs %s' % (kept1, kept2), case)
+        ctx.violation('renumbered and in-place variants keep different states', pub)
         return
     sub = [[r2['matrix'][i][j] for j in kept1] for i in kept1]
     if sub != r1['matrix']:
-        ctx.violation('renumbered matrix is not the in-place matrix restricted to the kept states', case)
+        ctx.violation('renumbered matrix is not the in-place matrix restricted to the kept states', pub)
         return
     # default threshold is 1
-    if thr == 1:
-        o = call_trim(make_container(C, 'ndarray', dtype), None, True, use_default_thr=True)
+    if thr == scale:
+        o = call_trim(make_container(case, 'ndarray'), None, True, scale, mode='default')
         if any(o.get(f) != r1[f] for f in ('to_original', 'matrix')):
-            ctx.tag('default-threshold-differs-from-1')
-            ctx.violation('trim_disconnected(counts) differs from threshold=1', dict(case, default_threshold=True))
+            ctx.violation('trim_disconnected(counts) differs from threshold=1', dict(pub, default_threshold=True))
+            return
+    # ---- call history / object reuse: the SAME matrix object trimmed again (after the caller scribbled on the
+    # first mapping), and the returned matrix fed back in
+    for kind in ('ndarray', 'csr') + (('coo', 'lil', 'matrix', 'csr_array') if case.get('extra_containers') else ()):
+        for renumber in (True, False):
+            M = make_container(case, kind)
+            before = snapshot(M)
+            o1 = call_trim(M, athr, renumber, scale, mode)
+            if 'error' in o1:
+                continue
+            o1['_mapping_obj'].to_original[10 ** 6] = 10 ** 6
+            o2 = call_trim(M, athr, renumber, scale, mode)
+            ref = outs[(kind, renumber)]
+            rep = dict(pub, container=kind, renumber=renumber, reuse='same-object-twice')
+            if snapshot(M) != before:
+                ctx.violation('matrix object changed after being trimmed twice (%s)' % kind, rep)
+                return
+            if any(o2.get(f) != ref[f] for f in ('to_original', 'to_mapped', 'shape', 'matrix', 'type')):
+                ctx.violation('second trim of the same %s object differs from the first (renumber=%s)' % (kind, renumber), rep)
+                return
+            # feeding the result back: a strongly connected matrix is its own trimming
+            T = o1['_T']
+            tb = snapshot(T)
+            k = len(ref['to_original'])
+            inner = sum(sum(r) for r in r1['matrix'])
+            if renumber or inner > 0:
+                o3 = call_trim(T, athr, renumber, scale, mode)
+                rep = dict(pub, container=kind, renumber=renumber, reuse='result-fed-back')
+                exp_map = [[a, a] for a in range(k)] if renumber else ref['to_original']
+                if snapshot(T) != tb:
+                    ctx.violation('trimming a returned matrix modified it (%s)' % kind, rep)
+                    return
+                if o3.get('to_original') != exp_map or o3.get('matrix') != ref['matrix'] or o3.get('type') != ref['type']:
+                    ctx.violation('trimming the trimmed matrix again changed it (%s, renumber=%s): %s'
+                                  % (kind, renumber, o3.get('error', '')), rep)
+                    return
+    ctx.tag('reuse-same-object-twice+result-fed-back')
+    # mappings / matrices handed out earlier must not have been touched by the later calls
+    for (kind, renumber), o in outs.items():
+        now = canon_mapping(o['_mapping_obj'])
+        import scipy.sparse as sp
+        T = o['_T']
+        dn = T.toarray() if sp.issparse(T) else np.asarray(T)
+        if now['to_original'] != o['to_original'] or now['to_mapped'] != o['to_mapped'] \
+                or [[_num(x, scale) for x in row] for row in dn.tolist()] != o['matrix']:
+            ctx.violation('a result returned earlier (%s, renumber=%s) changed after later calls' % (kind, renumber),
+                          dict(pub, container=kind, renumber=renumber, reuse='earlier-result-aliased'))
             return
     # csv round trip of the real mapping
+    from enspara.msm.transition_matrices import TrimMapping
     for renumber in (True, False):
         m = outs[('ndarray', renumber)]['_mapping_obj']
-        from enspara.msm.transition_matrices import TrimMapping
         buf = io.StringIO()
         m.write(buf)
         text = buf.getvalue()
+        buf2 = io.StringIO()
+        m.write(buf2)
         m2 = TrimMapping.read(io.StringIO(text))
-        if not (m2 == m) or canon_mapping(m2)['to_original'] != canon_mapping(m)['to_original']:
-            ctx.violation('TrimMapping.read(write(m)) != m (renumber=%s)' % renumber, dict(case, renumber=renumber))
+        if not (m2 == m) or canon_mapping(m2)['to_original'] != canon_mapping(m)['to_original'] or buf2.getvalue() != text:
+            ctx.violation('TrimMapping.read(write(m)) != m (renumber=%s)' % renumber, dict(pub, renumber=renumber))
             return
         rows = list(csv.reader(io.StringIO(text)))
-        mt = model_trim[renumber]
-        if 'ok' in mt and mt['ok'].get('csv') != rows:
-            ctx.disagreement('TrimMapping.write rows differ from the model',
-                             dict(case, renumber=renumber, impl=rows, model=mt['ok'].get('csv')))
+        if model_trim is not None:
+            mt = model_trim[renumber]
+            if 'ok' in mt and mt['ok'].get('csv') != rows:
+                ctx.disagreement('TrimMapping.write rows differ from the model',
+                                 dict(pub, renumber=renumber, impl=rows, model=mt['ok'].get('csv')))
 
     # ---- model vs implementation
+    if model_scc is None:
+        return
     if 'ok' not in model_scc:
-        ctx.disagreement('model scc op failed', dict(case, model=model_scc))
+        ctx.disagreement('model scc op failed', dict(pub, model=model_scc))
         return
     ms = model_scc['ok']
     if ms['reach'] != bfs_reach(orc['adj']):
-        ctx.disagreement('Lean Warshall closure differs from breadth-first reachability', dict(case, model=ms['reach']))
+        ctx.disagreement('Lean Warshall closure differs from breadth-first reachability', dict(pub, model=ms['reach']))
         return
     if sorted(map(tuple, ms['heaviest'])) != sorted(map(tuple, orc['heaviest'])):
         ctx.disagreement('model heaviest SCCs differ from the Tarjan oracle',
-                         dict(case, model=ms['heaviest'], oracle=orc['heaviest']))
+                         dict(pub, model=ms['heaviest'], oracle=orc['heaviest']))
         return
     for renumber in (True, False):
         mt = model_trim[renumber]
         ref = outs[('ndarray', renumber)]
         if 'ok' not in mt:
-            ctx.disagreement('model raised %s, implementation returned' % mt.get('error'), dict(case, renumber=renumber))
+            ctx.disagreement('model raised %s, implementation returned' % mt.get('error'), dict(pub, renumber=renumber))
             return
         mo = mt['ok']
         if not mo['valid']:
             ctx.disagreement('scipy labelling is not the SCC partition of the model closure '
-                             '(model hypothesis validLabeling false)', dict(case, renumber=renumber, labels=case.get('_labels')))
+                             '(model hypothesis validLabeling false)', dict(pub, renumber=renumber, labels=case.get('_labels')))
             return
         if not mo['in_heaviest'] or not mo['reread_equal']:
-            ctx.disagreement('model self-check failed (in_heaviest/reread_equal)', dict(case, renumber=renumber))
+            ctx.disagreement('model self-check failed (in_heaviest/reread_equal)', dict(pub, renumber=renumber))
             return
-        for f, g in (('to_original', 'to_original'), ('to_mapped', 'to_mapped'), ('matrix', 'matrix')):
-            if mo[f] != ref[g]:
+        for f in ('to_original', 'to_mapped', 'matrix'):
+            if mo[f] != ref[f]:
                 ctx.disagreement('model and implementation differ in %s (renumber=%s)' % (f, renumber),
-                                 dict(case, renumber=renumber, model=mo[f], impl=ref[g]))
+                                 dict(pub, renumber=renumber, model=mo[f], impl=ref[f]))
                 return
         if [mo['shape'], mo['shape']] != ref['shape']:
-            ctx.disagreement('model and implementation differ in shape', dict(case, renumber=renumber))
+            ctx.disagreement('model and implementation differ in shape', dict(pub, renumber=renumber))
             return
 
 
 def scipy_labels(C, thr):
-    """the labelling the code obtains (same call as in trim_disconnected)"""
+    """the labelling the code obtains (same call as in trim_disconnected), on the numerators"""
     from scipy.sparse.csgraph import connected_components
-    A = np.array(C, dtype=np.int64).reshape(len(C), len(C))
-    T = np.array(A, copy=True)
-    T[A < thr] = 0
+    n = len(C)
+    T = np.array([[1 if (x >= thr and x != 0) else 0 for x in r] for r in C], dtype=np.int64).reshape(n, n)
     nsub, labels = connected_components(T, connection='strong', directed=True)
     return int(nsub), [int(x) for x in labels]
 
@@ -363,10 +538,17 @@ def model_requests(case):
     kept is swapped with the smallest label among the tied ones (still a valid numbering) and the model
     must then reproduce the implementation's output for that choice."""
     C, thr = case['counts'], case['thr']
+    if case.get('model_skipped') or len(C) > 40:
+        case.setdefault('model_skipped', 'large-n')
+        if len(C) > 255:
+            nsub, labels = scipy_labels(C, thr)
+            h = oracle(C, thr)['heaviest']
+            case['_heavy_label'] = labels[h[0][0]]
+        return []
     nsub, labels = scipy_labels(C, thr)
     orc = oracle(C, thr)
     if len(orc['heaviest']) > 1:
-        out = call_trim(make_container(C, 'ndarray', 'int64'), thr, True)
+        out = call_trim(make_container(case, 'ndarray'), actual_thr(case), True, case.get('scale', 1))
         kept = sorted(o for _, o in out.get('to_original', []))
         if kept in orc['heaviest']:
             tied = sorted(labels[c[0]] for c in orc['heaviest'])
@@ -383,12 +565,17 @@ def model_requests(case):
 
 
 def run_cases(ctx, cases):
-    reqs = []
+    reqs, where = [], []
     for c in cases:
-        reqs += model_requests(c)
+        r = model_requests(c)
+        where.append(len(reqs) if r else None)
+        reqs += r
     resp = ctx.driver(reqs)
-    for i, c in enumerate(cases):
-        check_case(ctx, c, resp[3 * i], {True: resp[3 * i + 1], False: resp[3 * i + 2]})
+    for c, w in zip(cases, where):
+        if w is None:
+            check_case(ctx, c, None, None)
+        else:
+            check_case(ctx, c, resp[w], {True: resp[w + 1], False: resp[w + 2]})
 
 
 # --------------------------------------------------------------------------- generators
@@ -496,6 +683,130 @@ def gen_small(rng):
     return {'counts': C, 'thr': int(rng.integers(0, 4)), 'dtype': 'int64', 'family': 'small-dense'}
 
 
+INT_DTYPES = ['int8', 'int16', 'int32', 'uint8', 'uint16', 'uint32', 'uint64', 'float32', 'float64']
+
+
+def vary(rng, case, how):
+    """dtype / threshold-type / call-style / container variants of a structured case (class 2 and 6 of the audit)"""
+    c = dict(case)
+    if how == 'dtype':
+        c['dtype'] = str(rng.choice(INT_DTYPES))
+        c['thr_kind'] = str(rng.choice(['int', 'float', 'npint']))
+        if c['thr'] < 0:
+            c['thr_kind'] = 'int'
+        c['call'] = str(rng.choice(['kw', 'pos']))
+    elif how == 'half-threshold':
+        # integer counts (any dtype), threshold k + 0.5
+        c['scale'] = 2
+        c['counts'] = [[2 * x for x in r] for r in case['counts']]
+        c['thr'] = int(rng.choice([1, 3, 5, 7]))
+        c['dtype'] = str(rng.choice(['int64', 'int32', 'uint8', 'float64', 'float32']))
+    elif how == 'half-counts':
+        # counts that are multiples of 1/2 (e.g. after a symmetrising builder), float containers
+        c['scale'] = 2
+        c['thr'] = int(rng.integers(0, 8))
+        c['dtype'] = str(rng.choice(['float64', 'float32']))
+    c['explicit_zeros'] = bool(rng.random() < 0.4)
+    c['extra_containers'] = bool(rng.random() < 0.5)
+    c['family'] = case['family'] + '/' + how
+    return c
+
+
+def gen_large(rng, variant, heavy=False):
+    """more than 255 / 256 states, components and kept states (narrow label or index dtypes)"""
+    n = int(rng.choice([270, 300])) if variant == 'big-component' else (int(rng.choice([258, 300, 320])) if variant == 'many-singletons' else int(rng.choice([256, 257, 300])))
+    C = [[0] * n for _ in range(n)]
+    thr = int(rng.choice([1, 2]))
+    if variant == 'many-singletons':
+        # every state its own component (self count 1), one heavy 2-cycle; placed where scipy numbers it > 255
+        for i in range(n):
+            C[i][i] = 1
+        best = None
+        for (a, b) in [(n - 2, n - 1), (0, 1), (n // 2, n - 1), (0, n - 1)]:
+            D = [r[:] for r in C]
+            D[a][b] = 3
+            D[b][a] = 4
+            _, labels = scipy_labels(D, thr)
+            if best is None or labels[a] > best[0]:
+                best = (labels[a], D)
+        C = best[1]
+    elif variant == 'big-component':
+        # one cycle through more than 256 states (new ids > 255), light; a heavy small rival; singletons
+        perm = [int(x) for x in rng.permutation(n)]
+        k = int(rng.integers(257, n - 6))
+        cyc = perm[:k]
+        for a in range(k):
+            C[cyc[a]][cyc[(a + 1) % k]] = int(rng.integers(2, 5))
+        u, v = perm[k], perm[k + 1]
+        C[u][v] = C[v][u] = (4 * k if heavy else 3)
+        for s_ in perm[k + 2:]:
+            C[cyc[0]][s_] = 1          # one-way into sinks
+    else:
+        # ~n/2 two-cycles of increasing weight in shuffled positions: heaviest has a high id and a high label
+        perm = [int(x) for x in rng.permutation(n)]
+        order = [int(x) for x in rng.permutation(n // 2)]
+        for idx, q in enumerate(order):
+            u, v = perm[2 * q], perm[2 * q + 1]
+            C[u][v] = 2 + idx
+            C[v][u] = 2
+            if idx + 1 < len(order) and rng.random() < 0.3:
+                C[u][perm[2 * order[idx + 1]]] = 1     # one-way link (below thr 2)
+    return {'counts': C, 'thr': thr, 'dtype': str(rng.choice(['int64', 'int32', 'uint16'])),
+            'family': 'large-n/' + variant, 'model_skipped': 'large-n'}
+
+
+def gen_near_tie(rng):
+    """component weights that differ by 1 at the scale 2**40..2**60 (exact in int64, not in float)"""
+    W = 2 ** int(rng.integers(40, 61)) + int(rng.integers(0, 1000))
+    perm = [int(x) for x in rng.permutation(6)]
+    C = [[0] * 6 for _ in range(6)]
+    a, b, c, d, e, f = perm
+    deltas = [int(x) for x in rng.permutation([0, 1, 2])]
+    C[a][b], C[b][a] = W + deltas[0], 2
+    C[c][d], C[d][c] = W + deltas[1] - 3, 5
+    C[e][e] = W + deltas[2] + 2
+    C[f][e] = 1
+    return {'counts': C, 'thr': int(rng.choice([0, 1, 2, 3])), 'dtype': str(rng.choice(['int64', 'uint64'])),
+            'family': 'near-tie-2^40..2^60'}
+
+
+def gen_uint8_sums(rng):
+    n = int(rng.integers(3, 6))
+    C = [[int(rng.choice([0, 0, 100, 200, 255])) for _ in range(n)] for _ in range(n)]
+    return {'counts': C, 'thr': int(rng.choice([1, 101, 201])), 'dtype': str(rng.choice(['uint8', 'uint8', 'uint16'])),
+            'family': 'narrow-dtype-row-sums>255', 'extra_containers': bool(rng.random() < 0.3)}
+
+
+def gen_degenerate(rng):
+    n = int(rng.integers(1, 8))
+    kind = str(rng.choice(['zero', 'diagonal', 'below-threshold', 'pendant-chain', 'star', 'self-only+one-pair']))
+    C = [[0] * n for _ in range(n)]
+    thr = int(rng.integers(0, 4))
+    if kind == 'diagonal':
+        for i in range(n):
+            C[i][i] = int(rng.integers(0, 4))
+    elif kind == 'below-threshold':
+        thr = 3
+        C = [[int(rng.integers(0, 3)) for _ in range(n)] for _ in range(n)]
+    elif kind == 'pendant-chain':
+        for i in range(n - 1):
+            C[i][i + 1] = int(rng.integers(1, 4))
+            C[i + 1][i] = int(rng.integers(1, 4))
+    elif kind == 'star':
+        for i in range(1, n):
+            C[0][i] = int(rng.integers(1, 4))
+            if rng.random() < 0.6:
+                C[i][0] = int(rng.integers(1, 4))
+    elif kind == 'self-only+one-pair':
+        for i in range(n):
+            C[i][i] = int(rng.integers(1, 9))
+        if n >= 2:
+            C[0][1] = C[1][0] = 1
+    return {'counts': C, 'thr': thr, 'dtype': str(rng.choice(['int64', 'int32', 'float64'])),
+            'family': 'degenerate/' + kind, 'extra_containers': bool(rng.random() < 0.3),
+            'explicit_zeros': bool(rng.random() < 0.3)}
+
+
 FAMILIES = ['random', 'random', 'equal-size', 'light-large-vs-heavy-small', 'tie', 'below-threshold-weight']
 
 
@@ -513,6 +824,26 @@ def small_exhaustive():
 
 # --------------------------------------------------------------------------- MSM.fit
 
+def ref_counts(rows, lag, n):
+    """the lagged pair count in the property's own words (sliding window)"""
+    C = [[0] * n for _ in range(n)]
+    for r in rows:
+        for t in range(len(r) - lag):
+            C[r[t]][r[t + lag]] += 1
+    return C
+
+
+def build_assigns(case):
+    from enspara import ra
+    rows, form, dt = case['assigns'], case.get('form', 'padded'), case.get('adtype', 'int64')
+    if form == 'ragged':
+        return ra.RaggedArray([np.array(r, dtype=dt) for r in rows])
+    a = -np.ones((len(rows), max(len(r) for r in rows)), dtype=dt)
+    for i, r in enumerate(rows):
+        a[i, :len(r)] = r
+    return a
+
+
 def check_msm(ctx, case):
     import logging
     logging.getLogger('enspara').setLevel(logging.ERROR)
@@ -521,11 +852,21 @@ def check_msm(ctx, case):
     from enspara.msm import MSM, builders
     from enspara.msm.transition_matrices import assigns_to_counts, trim_disconnected
     rows, lag, method = case['assigns'], case['lag'], case['method']
-    a = -np.ones((len(rows), max(len(r) for r in rows)), dtype=int)
-    for i, r in enumerate(rows):
-        a[i, :len(r)] = r
-    ctx.tag('msm-fit-' + method)
+    form, adt = case.get('form', 'padded'), case.get('adtype', 'int64')
+    n_true = case['n_states'] if case['n_states'] is not None else max(max(r) for r in rows) + 1
+    a = build_assigns(case)
+    a_before = np.asarray(a._data if form == 'ragged' else a).tobytes()
+    tags = ['msm', 'msm-fit-' + method, 'msm-assigns=%s/%s' % (form, adt),
+            'msm-n_states=' + ('explicit' if case['n_states'] is not None else 'inferred')]
+    if n_true > 255:
+        tags.append('msm-states>255')
+    if max(len(r) for r in rows) >= 300:
+        tags.append('msm-counts>127')
     counts = assigns_to_counts(a, lag_time=lag, max_n_states=case['n_states'])
+    C = ref_counts(rows, lag, n_true)
+    if np.asarray(counts.toarray()).tolist() != C:
+        ctx.skip('assigns_to_counts differs from the reference pair count (C03 matter) for %s/%s' % (form, adt))
+        return
     m0, t0 = trim_disconnected(counts, threshold=1, renumber_states=True)
     msm = MSM(lag_time=lag, method=getattr(builders, method), trim=True, max_n_states=case['n_states'])
     err = None
@@ -539,45 +880,80 @@ def check_msm(ctx, case):
     if err:
         ctx.skip('MSM.fit: builder raised %s after trimming (mapping still compared)' % err)
     got, exp = canon_mapping(msm.mapping_), canon_mapping(m0)
-    C = np.asarray(counts.toarray()).tolist()
-    ctx.case(dict(case, kind='msm'), nontrivial=True, tags=['msm'])
+    pub = dict(case, kind='msm')
+    ctx.case(pub if n_true <= 40 else dict(pub, assigns='<%d rows>' % len(rows)), nontrivial=True, tags=tags)
     if got != exp or not (msm.mapping_ == m0):
         ctx.violation('MSM(trim=True).fit(...).mapping_ differs from trim_disconnected(counts)',
-                      dict(case, kind='msm', got=got, expected=exp))
+                      dict(pub, got=got, expected=exp))
         return
     orc = oracle(C, 1)
     t0d = np.asarray(t0.toarray() if hasattr(t0, 'toarray') else t0)
     out = dict(got, shape=list(t0d.shape), matrix=t0d.astype(int).tolist())
     bad = predicate(C, 1, True, out, orc)
     if bad:
-        ctx.violation('MSM mapping_: ' + bad[0], dict(case, kind='msm'))
+        ctx.violation('MSM mapping_: ' + bad[0], pub)
         return
     if type(t0) is not type(counts):
         ctx.violation('trim_disconnected changed the container of the MSM counts: %s -> %s'
-                      % (type(counts).__name__, type(t0).__name__), dict(case, kind='msm'))
+                      % (type(counts).__name__, type(t0).__name__), pub)
         return
     if err is None:
         tc = msm.tcounts_
         tc = np.asarray(tc.toarray() if hasattr(tc, 'toarray') else tc)
         if tc.shape != (len(got['to_original']),) * 2:
             ctx.violation('MSM tcounts_ shape %s does not match the %d kept states'
-                          % (tc.shape, len(got['to_original'])), dict(case, kind='msm'))
+                          % (tc.shape, len(got['to_original'])), pub)
+            return
+    # call history: the same estimator fitted again on the same assignment object, after the caller
+    # scribbled on the first mapping
+    msm.mapping_.to_original[10 ** 6] = 10 ** 6
+    try:
+        msm.fit(a)
+    except Exception:  # noqa
+        pass
+    if canon_mapping(msm.mapping_) != exp:
+        ctx.violation('second MSM.fit on the same objects reports a different mapping', dict(pub, reuse='fit-twice'))
+        return
+    if np.asarray(a._data if form == 'ragged' else a).tobytes() != a_before:
+        ctx.violation('MSM.fit modified the assignments', dict(pub, reuse='fit-twice'))
 
 
-def gen_msm(rng):
-    n_states = int(rng.integers(2, 7))
+def gen_msm(rng, large=False):
+    n_states = int(rng.integers(2, 7)) if not large else int(rng.choice([260, 300]))
     rows = []
-    # trajectories confined to (possibly overlapping) subsets of states -> several components, one-way hops
-    for _ in range(int(rng.integers(1, 5))):
-        k = int(rng.integers(1, n_states + 1))
-        sub = rng.choice(n_states, size=k, replace=False)
-        L = int(rng.integers(2, 14))
-        rows.append([int(x) for x in rng.choice(sub, size=L)])
+    if large:
+        # every state visited, most of them only in passing (one-way), a heavy recurrent block at high ids
+        order = [int(x) for x in rng.permutation(n_states)]
+        rows.append(order)
+        blk = [int(x) for x in rng.choice(np.arange(256, n_states), size=3, replace=False)]
+        rows.append([blk[i % 3] for i in range(40)])
+        lo = [int(x) for x in rng.choice(np.arange(0, 200), size=2, replace=False)]
+        rows.append([lo[i % 2] for i in range(12)])
+    else:
+        # trajectories confined to (possibly overlapping) subsets of states -> several components, one-way hops
+        for _ in range(int(rng.integers(1, 5))):
+            k = int(rng.integers(1, n_states + 1))
+            sub = rng.choice(n_states, size=k, replace=False)
+            L = int(rng.integers(2, 14))
+            rows.append([int(x) for x in rng.choice(sub, size=L)])
     lag = int(rng.integers(1, 3))
     if all(len(r) <= lag for r in rows):
         rows.append([0] * (lag + 2))
-    return {'assigns': rows, 'lag': lag, 'n_states': n_states,
-            'method': str(rng.choice(['normalize', 'transpose']))}
+    long_ = (not large) and rng.random() < 0.3
+    if long_:
+        # counts above 127 / 255 between two or three states
+        sub = [int(x) for x in rng.choice(n_states, size=min(n_states, int(rng.integers(2, 4))), replace=False)]
+        rows.append([sub[i % len(sub)] for i in range(int(rng.integers(300, 700)))])
+    form = str(rng.choice(['padded', 'ragged']))
+    adt = str(rng.choice(['int64', 'int32', 'int16', 'int8'] if form == 'padded' else
+                         ['int64', 'int32', 'int16', 'int8', 'uint8', 'uint16', 'uint32']))
+    if long_:
+        adt = str(rng.choice(['int8', 'int16'] if form == 'padded' else ['int8', 'uint8', 'int16']))
+    if large and adt in ('int8', 'uint8'):
+        adt = 'int16'
+    explicit = bool(rng.random() < 0.6)
+    return {'assigns': rows, 'lag': lag, 'n_states': n_states if explicit else None,
+            'method': str(rng.choice(['normalize', 'transpose'])), 'form': form, 'adtype': adt}
 
 
 # --------------------------------------------------------------------------- TrimMapping dict / csv
@@ -664,6 +1040,9 @@ def gen_csv(rng):
 # --------------------------------------------------------------------------- entry points
 
 def run(ctx):
+    import warnings
+    warnings.filterwarnings('ignore', message='.*DIA matrix.*')
+    warnings.filterwarnings('ignore', category=RuntimeWarning, module='.*builders.*')
     rng = ctx.rng
     # empty matrix: the only error branch
     from enspara.msm.transition_matrices import trim_disconnected
@@ -680,33 +1059,48 @@ def run(ctx):
         ctx.disagreement('0x0 matrix: model %s, implementation %s' % (r, impl), {'kind': 'empty'})
 
     cases = small_exhaustive()
-    nrand = ctx.n(1200, 8000)
+    nrand = ctx.n(900, 7000)
     for i in range(nrand):
         if i % 7 == 5:
-            cases.append(gen_small(rng))
+            c = gen_small(rng)
         elif i % 7 == 6:
-            cases.append(gen_uniform(rng, big=ctx.thorough and i % 2 == 0))
+            c = gen_uniform(rng, big=ctx.thorough and i % 2 == 0)
         else:
-            cases.append(gen_structured(rng, FAMILIES[i % len(FAMILIES)], big=ctx.thorough and i % 5 == 0))
+            c = gen_structured(rng, FAMILIES[i % len(FAMILIES)], big=ctx.thorough and i % 5 == 0)
+        if i % 4 == 1:
+            c = vary(rng, c, str(rng.choice(['dtype', 'dtype', 'half-threshold', 'half-counts'])))
+        elif i % 4 == 3:
+            c['extra_containers'] = bool(i % 8 == 3)
+            c['explicit_zeros'] = bool(i % 8 == 7)
+            c['call'] = 'pos' if i % 16 == 3 else 'kw'
+        cases.append(c)
+    for i in range(ctx.n(40, 400)):
+        cases.append(gen_degenerate(rng))
+    for i in range(ctx.n(30, 300)):
+        cases.append(gen_near_tie(rng) if i % 2 == 0 else gen_uint8_sums(rng))
+    for i in range(ctx.n(6, 36)):
+        cases.append(gen_large(rng, ['many-singletons', 'big-component', 'many-pairs'][i % 3], heavy=bool((i // 3) % 2)))
     run_cases(ctx, cases)
 
-    for _ in range(ctx.n(60, 800)):
+    for i in range(ctx.n(90, 900)):
         check_msm(ctx, gen_msm(rng))
+    for i in range(ctx.n(2, 12)):
+        check_msm(ctx, gen_msm(rng, large=True))
 
     mc = [gen_mapping(rng) for _ in range(ctx.n(150, 2000))] + [gen_csv(rng) for _ in range(ctx.n(100, 1000))]
     check_mappings(ctx, mc)
-    ctx.note('containers', CONTAINERS)
+    ctx.note('containers', BASE_CONTAINERS + EXTRA_CONTAINERS)
 
 
 def replay(ctx, data):
     kind = data.get('kind')
     if kind == 'msm':
-        check_msm(ctx, {k: data[k] for k in ('assigns', 'lag', 'n_states', 'method')})
+        check_msm(ctx, {k: data[k] for k in ('assigns', 'lag', 'n_states', 'method', 'form', 'adtype') if k in data})
     elif kind in ('mapping', 'csv'):
         check_mappings(ctx, [{k: v for k, v in data.items() if k in ('kind', 'pairs', 'rows', 'expect')}])
     elif kind == 'empty':
         return
     else:
-        c = {'counts': data['counts'], 'thr': data['thr'], 'dtype': data.get('dtype', 'int64'),
-             'family': data.get('family', 'replay')}
+        c = {k: data[k] for k in CASE_KEYS if k in data}
+        c.setdefault('family', 'replay')
         run_cases(ctx, [c])
